@@ -595,7 +595,8 @@ def cumulative_in_loop(loop, test, repo=None) -> tuple[bool, list[str]]:
             grown.add(norm.raw(n.func.value))
     seen = []
     counters = package_counters(repo) if repo is not None else set()
-    for n in ast.walk(norm.subst(test, test)):
+    # both spellings: as written (a local that aliases an attribute is still the thing the loop grows) and with single-def locals resolved
+    for n in list(ast.walk(test)) + list(ast.walk(norm.subst(test, test))):
         if isinstance(n, (ast.Name, ast.Attribute)):
             t = norm.raw(n)
             seen.append(t)
